@@ -16,7 +16,7 @@ their unsigned bit pattern, bool `0|1`, char as scalar value, String / Vec<u8> a
   `newstream`                           → `ok` (starts the group of `encframe`s a `frames` op reads back)
   `encframe <payload hex>`              → frame hex
   `frames max=<m> chunks=<sizes> stream=<hex> dec=<payload:canon|payload:!|…>`
-                                        → `whole=<res,…>@<consumed> split=<res,…>@<consumed> maxreq= reads= sumreq=`
+                                        → `whole=<res,…>@<consumed> split=<res,…>@<consumed> maxreq= reads= sumreq= alloc=ok|big`
   `metadec <kty> <hex|none>`            → `err` | `ok <submit> <ttl|none> <key>` | `panic`
   `metart <kty> <submit> <ttl|none> <key>` → `<meta hex> ok …`
   `jobopt <hex>`                        → `default` | `ok <submit> <ttl|none>`
@@ -308,10 +308,10 @@ def step (st : St) (op impl : String) : St × StepOut :=
       let tr := r.2.2
       let maxReq := Codec.maxReq tr
       let sumReq := tr.foldl (fun a e => a + e.req) 0
-      let model := s!"whole={showObs whole} split={showObs split} maxreq={maxReq} reads={tr.length} sumreq={sumReq}"
+      let model := s!"whole={showObs whole} split={showObs split} maxreq={maxReq} reads={tr.length} sumreq={sumReq} alloc=ok"
       -- oracle on the implementation's observation
       let orc := match words impl with
-        | [w, s, mr, _, _] =>
+        | [w, s, mr, _, _, al] =>
           match (field? w "whole").bind parseObs?, (field? s "split").bind parseObs?, (field? mr "maxreq").bind (·.toNat?) with
           | some wo, some so, some mreq =>
             let o : FrameObs Bytes := { whole := wo, split := so, maxReq := mreq, panicked := false }
@@ -322,7 +322,7 @@ def step (st : St) (op impl : String) : St × StepOut :=
                 (if so.1 == st.frames.map (fun p => match dec p with | some c => FrameRes.ok c | none => .err .undecodable) ++ [.err .eof]
                  then [] else ["frame-roundtrip"])
               else []
-            base ++ rt
+            base ++ rt ++ (if al == "alloc=ok" then [] else ["frame-buffer-bounded"])
           | _, _, _ => ["frame-total"]
         | _ => ["frame-total"]
       ({ st with frames := [], framesImpl := [] },
